@@ -27,6 +27,7 @@ package zlib
 
 //@ func (*Writer).writeHeader
 //@   requires zwBase(z) && !z.wroteHeader && z.err == nil
+//@   assert call Write 1 [C06 header-bytes] z.scratch[0] == 120 && (uint32(z.scratch[0])*256 + uint32(z.scratch[1])) % 31 == 0 && (z.dict != nil) == (z.scratch[1] & 32 != 0) && (z.level == -2 || z.level == 0 || z.level == 1 ==> z.scratch[1]>>6 == 0) && (2 <= z.level && z.level <= 5 ==> z.scratch[1]>>6 == 1) && (z.level == 6 || z.level == -1 ==> z.scratch[1]>>6 == 2) && (7 <= z.level && z.level <= 9 ==> z.scratch[1]>>6 == 3)
 //@   modifies *z, **z.w, extWrites, lastWriteErr
 //@   ensures[C14 dst-err] err == nil ==> !dstFailed(z.w)
 //@   ensures z.wroteHeader && same(z.w) && same(z.level) && same(z.closed)
@@ -54,6 +55,7 @@ package zlib
 
 //@ func (*Writer).Close
 //@   requires zwOK(z)
+//@   assert call Write 1 [C06 trailer-bytes] uint32(z.scratch[0])<<24 | uint32(z.scratch[1])<<16 | uint32(z.scratch[2])<<8 | uint32(z.scratch[3]) == lastSum32
 //@   modifies *z, **z.compressor, **z.w, extWrites, lastSum32, lastWriteErr
 //@   ensures[C16 inv] zwOK(z)
 //@   ensures[C14 C16 sticky-in] old(z.err) != nil ==> result == old(z.err) && extWrites == old(extWrites) && same(z.err)
@@ -93,7 +95,7 @@ package zlib
 
 //@ func (*reader).Reset
 //@   params z, r, dict -> err
-//@   requires (typeis(z.decompressor, *github.com/intel/fastgo/compress/flate.decompressor) ==> z.decompressor.(*github.com/intel/fastgo/compress/flate.decompressor).rBuf != nil ==> brOK(z.decompressor.(*github.com/intel/fastgo/compress/flate.decompressor).rBuf)) && (typeis(r, *bufio.Reader) ==> brOK(r.(*bufio.Reader)))
+//@   requires (typeis(z.decompressor, *github.com/intel/fastgo/compress/flate.decompressor) ==> (z.decompressor.(*github.com/intel/fastgo/compress/flate.decompressor).rBuf != nil ==> brOK(z.decompressor.(*github.com/intel/fastgo/compress/flate.decompressor).rBuf)) && tabsOK(&z.decompressor.(*github.com/intel/fastgo/compress/flate.decompressor).state)) && (typeis(r, *bufio.Reader) ==> brOK(r.(*bufio.Reader)))
 //@   modifies *z, **z.decompressor, **r, extReads, peekErr, lastReadN, lastReadErr, rfErr, rfN
 //@   ensures[C13 fresh] err == nil ==> zrBase(z) && z.err == nil
 //@   ensures@5[C13 dict-honoured] haveDict ==> typeis(z.decompressor, other)
